@@ -336,11 +336,31 @@ def run_case(case, ctx):
         O.report_exception(ctx, facts, err, case, what=fn)
 
 
+def directed_cases():
+    """Extremes of one fixed array under all four sort settings, one after the other in one
+    process (whatever was decided under an earlier setting must not stick)."""
+    spec = {"k": "poly", "names": ["q0", "q1"],
+            "exps": [[1, 0], [0, 1], [0, 0], [3, 0], [1, 1]],
+            "coefs": [[1, 0, 0, 0, 0, 0], [0, 1, 0, 0, 0, 2], [0, 0, 3, 0, 0, 0],
+                      [0, 0, 0, 1, 0, 0], [0, 0, 0, 0, 1, 0]],
+            "kind": "int", "shape": [6], "via": "attrs"}
+    out = []
+    for _ in range(2):
+        for graded, reverse in ((True, False), (False, False), (False, True), (True, True)):
+            for which in ("argmax", "argmin", "amax", "amin"):
+                out.append({"fn": "extreme", "poly": spec, "graded": graded, "reverse": reverse,
+                            "options": {"sort_graded": graded, "sort_reverse": reverse},
+                            "which": which})
+    return out
+
+
 def run(spec, ctx):
     if "replay_case" in spec:
         ctx.run_case(spec["replay_case"], lambda c: run_case(c, ctx))
         return
     g = G.Gen(spec["seed"] * 1000003 + spec["part"] * 7919 + 19)
+    for case in directed_cases():  # in every shard: each worker is a process of its own
+        ctx.run_case(case, lambda c: run_case(c, ctx))
     for i in range(spec["n"]):
         case = gen_case(g)
         if i < 3 and spec["part"] == 0:
